@@ -294,9 +294,13 @@ func (r *Run) Finish() int {
 	defer r.mu.Unlock()
 
 	unknown := 0
+	knownPrinted := map[*Finding]bool{}
 	for _, v := range r.violations {
 		if v.known != nil {
-			fmt.Printf("KNOWN-FINDING: property=%s %s [%s] %s\n", r.ID, v.known.Description, v.Signature, v.Summary)
+			if !knownPrinted[v.known] { // one line per listed finding
+				knownPrinted[v.known] = true
+				fmt.Printf("KNOWN-FINDING: property=%s %s [%s] witness of this run: %s\n", r.ID, v.known.Description, v.Signature, v.Summary)
+			}
 			continue
 		}
 		unknown++
